@@ -22,7 +22,7 @@ mcVars == <<o, content, hops, b>>
 MCInit == /\ o \in Origins /\ content \in Contents /\ hops = <<>> /\ b = BInit(o)
 MCNext == /\ Len(hops) < MaxHops
           /\ \E h \in (IF hops = <<>> THEN FirstHops ELSE LaterHops) :
-               hops' = Append(hops, h) /\ b' = BHop(b, h)
+               WellFormed(Append(hops, h)) /\ hops' = Append(hops, h) /\ b' = BHop(b, h)
           /\ UNCHANGED <<o, content>>
 MCSpec == MCInit /\ [][MCNext]_mcVars
 
